@@ -145,8 +145,8 @@ def run_case(case):
 
 
 def health(classes, n, tier):
-    need = {"shared_variable_names": 0.5, "startless_operand": 0.03, "empty_operand_language": 0.03,
-            "vpool:fresh": 0.08}
+    need = {"shared_variable_names": 0.2, "startless_operand": 0.012, "empty_operand_language": 0.012,
+            "vpool:fresh": 0.032}
     for k, frac in need.items():
         if classes.get(k, 0) < frac * n:
             return "class %s too rare: %d of %d" % (k, classes.get(k, 0), n)
